@@ -74,13 +74,71 @@ theorem c17_sendfile_no_overflow (g : Cfg) (s : S) (off len : Nat) (ks : List KA
   repeat' split
   all_goals simp
 
+theorem sendfileLoop_no_fail (g : Cfg) (ks : List KAns) (hk : ∀ k ∈ ks, k ≠ .fail) :
+    ∀ (s : S) (off rem : Nat), (sendfileLoop g s off rem ks).2 = false := by
+  induction ks with
+  | nil => intro s off rem; unfold sendfileLoop; split <;> rfl
+  | cons k ks ih =>
+    intro s off rem
+    have ih' := ih (fun k hk' => hk k (List.mem_cons_of_mem _ hk'))
+    unfold sendfileLoop
+    split
+    · rfl
+    split
+    · rfl
+    · exact ih' s off rem
+    · exact absurd rfl (hk _ (by simp))
+    · simp only
+      split
+      · rfl
+      · exact ih' _ _ _
+
+/-- **C17 (fits ⇒ accepted, Sendfile).** `Sendfile` holds no bytes, so it always fits: on an open
+    connection it is accepted in full (the clamped range), whatever the bound and the backlog, unless the
+    kernel answers with a fatal error. -/
+theorem c17_fits_accepted_sendfile (g : Cfg) (s : S) (off len : Nat) (ks : List KAns) (hr : Reach g s)
+    (hc : s.closed = false) (hk : ∀ k ∈ ks, k ≠ .fail) :
+    (sendfile g s off len ks).2 = ⟨sendRange g off len, .none⟩ := by
+  have hd := (reach_inv hr).1
+  unfold sendfile
+  rw [if_neg (by simp [hd.nohang]), if_neg (by simp [hc])]
+  simp only
+  split
+  · rename_i h0; simp [h0]
+  · split
+    · rfl
+    · rw [sendfileLoop_no_fail g ks hk]; rfl
+
+/-- **C17 (full budget after drain).** With the queue empty the whole bound is available again: a call
+    fits iff it fits the bound alone, and then it is accepted. -/
+theorem c17_full_budget_after_drain (g : Cfg) (ops : List Op) (b : Bytes) (k : KAns) :
+    let s := run g init ops
+    s.closed = false → s.wl = [] →
+    (fits g s b.length ↔ (g.maxWB = 0 ∨ b.length ≤ g.maxWB)) ∧
+    ((g.maxWB = 0 ∨ b.length ≤ g.maxWB) → k ≠ .fail → (write g s b k).2 = ⟨b.length, .none⟩) := by
+  intro s hc hw
+  have h0 := c17_drained g ops hc hw
+  have hfit : fits g s b.length ↔ (g.maxWB = 0 ∨ b.length ≤ g.maxWB) := by
+    unfold fits; rw [h0]; simp
+  exact ⟨hfit, fun h hk => c17_fits_accepted_write g s b k ⟨ops, rfl⟩ hc hk (hfit.mpr h)⟩
+
+/-- **C17 (what the bound does not cover).** Queued file ranges of `Sendfile` (and their dup'ed
+    descriptors) are not held bytes: with a bound of 5 a backlog of any number of file ranges of any size
+    is reachable while `left` stays within the bound. The property's "Write, Writev, Sendfile mixed" is
+    therefore about the buffer bytes only (as in the code). -/
+theorem c17_file_ranges_not_counted :
+    let s := run ⟨.lt, 5, 1000, fun i => UInt8.ofNat i⟩ init
+      [.register, .write [1, 2, 3] [.eagain], .sendfile 0 900 [], .sendfile 0 1000 [], .sendfile 10 500 []]
+    s.closed = false ∧ s.left = 3 ∧ backlog s.wl = 2403 ∧ s.wl.length = 4 := by
+  decide
+
 /-- **C17 (does not fit ⇒ overflow error, closed; Write).** -/
 theorem c17_overflow_closes_write (g : Cfg) (s : S) (b : Bytes) (k : KAns) (hr : Reach g s)
     (hc : s.closed = false) (hb : b.length ≠ 0) (hm : g.maxWB > 0) (hbig : s.left + b.length > g.maxWB) :
     (write g s b k).2 = ⟨-1, .overflow⟩ ∧ (write g s b k).1.closed = true := by
   have hd := (reach_inv hr).1
   have hov : overflow g s b.length = true := by simp [overflow, hm, hbig]
-  simp [write, hd.nohang, hc, writeInner, hb, hov, finishCall, closeNow]
+  simp [write, hd.nohang, hc, writeInner, hb, hov, finishCall, flip]
 
 /-- **C17 (does not fit ⇒ overflow error, closed; Writev).** -/
 theorem c17_overflow_closes_writev (g : Cfg) (s : S) (bs : List Bytes) (k : KAns) (hr : Reach g s)
@@ -98,8 +156,8 @@ theorem c17_overflow_closes_writev (g : Cfg) (s : S) (bs : List Bytes) (k : KAns
   · rename_i b
     have hov' : overflow g s b.length = true := by simpa [total] using hov
     have hb' : b.length ≠ 0 := by simpa [total] using hb
-    simp [writeInner, hb', hov', finishCall, closeNow]
-  · simp [writevInner, hov, finishCall, closeNow]
+    simp [writeInner, hb', hov', finishCall, flip]
+  · simp [writevInner, hov, finishCall, flip]
 
 /-- **C17 (overflow is only reported when the call does not fit).** -/
 theorem c17_overflow_only_if_write (g : Cfg) (s : S) (b : Bytes) (k : KAns)
@@ -156,19 +214,32 @@ def g5 : Cfg := ⟨.lt, 5, 10, fun i => UInt8.ofNat i⟩
 
 /-- fill / drain / fill: the counter follows the backlog and comes back to 0 -/
 example :
-    let s1 := run g5 init [.register, .write [1, 2, 3, 4] (.wrote 1)]
-    let s2 := run g5 init [.register, .write [1, 2, 3, 4] (.wrote 1), .evTake true false false [.wrote 9]]
-    let s3 := run g5 init [.register, .write [1, 2, 3, 4] (.wrote 1), .evTake true false false [.wrote 9],
-      .writev [[5, 6], [7, 8, 9]] .eagain]
+    let s1 := run g5 init [.register, .write [1, 2, 3, 4] [.wrote 1]]
+    let s2 := run g5 init [.register, .write [1, 2, 3, 4] [.wrote 1], .evTake true false false [.wrote 9]]
+    let s3 := run g5 init [.register, .write [1, 2, 3, 4] [.wrote 1], .evTake true false false [.wrote 9],
+      .writev [[5, 6], [7, 8, 9]] [.eagain]]
     s1.left = 3 ∧ s2.left = 0 ∧ s2.wl.length = 0 ∧ s3.left = 5 ∧ s3.closed = false := by decide
 
 /-- exactly fitting is accepted, one more byte is rejected and closes -/
-example : fits g5 (run g5 init [.register, .write [1, 2, 3] .eagain]) 2 := by
+example : fits g5 (run g5 init [.register, .write [1, 2, 3] [.eagain]]) 2 := by
   right; decide
-example : (write g5 (run g5 init [.register, .write [1, 2, 3] .eagain]) [4, 5] .eagain).2 = ⟨2, .none⟩ := by decide
-example : (write g5 (run g5 init [.register, .write [1, 2, 3] .eagain]) [4, 5, 6] .eagain).2 = ⟨-1, .overflow⟩ := by decide
-example : (writev g5 (run g5 init [.register, .write [1, 2, 3] .eagain]) [[4], [5, 6]] .eagain).2 = ⟨-1, .overflow⟩ := by decide
+example : (write g5 (run g5 init [.register, .write [1, 2, 3] [.eagain]]) [4, 5] .eagain).2 = ⟨2, .none⟩ := by decide
+example : (write g5 (run g5 init [.register, .write [1, 2, 3] [.eagain]]) [4, 5, 6] .eagain).2 = ⟨-1, .overflow⟩ := by decide
+example : (writev g5 (run g5 init [.register, .write [1, 2, 3] [.eagain]]) [[4], [5, 6]] .eagain).2 = ⟨-1, .overflow⟩ := by decide
+/-- ET and ONESHOT, a bounded Writev that the kernel takes partially: the remainder bookkeeping
+    (`queueRest`) under a bound -/
+example :
+    let g : Cfg := ⟨.et, 5, 10, fun i => UInt8.ofNat i⟩
+    let s := run g init [.register, .writev [[1, 2], [], [3, 4, 5]] [.wrote 3]]
+    s.left = 2 ∧ s.wire = [1, 2, 3] ∧ s.closed = false ∧
+    (writev g s [[6, 7], [8]] .eagain).2 = ⟨3, .none⟩ ∧ (writev g s [[6, 7], [8, 9]] .eagain).2 = ⟨-1, .overflow⟩ := by
+  decide
+example :
+    let g : Cfg := ⟨.oneshot, 5, 10, fun i => UInt8.ofNat i⟩
+    let s := run g init [.register, .writev [[1, 2, 3], [4, 5]] [.wrote 1], .evTake true false false [.wrote 9], .evEnd]
+    s.left = 0 ∧ s.wl.length = 0 ∧ s.wire = [1, 2, 3, 4, 5] := by decide
+
 /-- a queued file range does not count -/
-example : (run g5 init [.register, .write [1, 2, 3] .eagain, .sendfile 0 0 []]).left = 3 := by decide
+example : (run g5 init [.register, .write [1, 2, 3] [.eagain], .sendfile 0 0 []]).left = 3 := by decide
 
 end ConnFull
